@@ -27,6 +27,7 @@ import (
 	"github.com/sourcenetwork/defradb/internal/core"
 	"github.com/sourcenetwork/defradb/internal/datastore"
 	"github.com/sourcenetwork/defradb/internal/encryption"
+	"github.com/sourcenetwork/defradb/internal/keys"
 )
 
 func putBlock(
@@ -140,6 +141,20 @@ func determineBlockEncryption(
 				return nil, cidlink.Link{}, err
 			}
 			return encBlock, link, nil
+		}
+	}
+
+	// A field that has not been written before has no previous block to inherit the encryption from.
+	// If the document itself is encrypted, the field must be encrypted with the key of the document.
+	if fieldName.HasValue() && len(heads) == 0 {
+		compositeHeads := NewHeadSet(
+			txn.Headstore(),
+			keys.HeadstoreDocKey{DocID: docID, FieldID: core.COMPOSITE_NAMESPACE},
+		)
+		var err error
+		heads, _, err = compositeHeads.List(ctx)
+		if err != nil {
+			return nil, cidlink.Link{}, NewErrGettingHeads(err)
 		}
 	}
 
